@@ -40,7 +40,7 @@ class Bench:
         self.saved_time = P.time
         P.time = self.clock
         self.log = logging.getLogger("c07-harness")
-        self.log.setLevel(logging.CRITICAL + 1)
+        __import__("common").quiet(self.log)
         self.log.propagate = False
 
     def close(self):
